@@ -43,6 +43,8 @@ type Case struct {
 	Schedule   [][]int     `json:"schedule"` // priority lists, one per grant (cycled)
 	// AssertKnown disables the classification of the two listed protocol races as known findings (set by their replays only)
 	AssertKnown bool `json:"assert_known,omitempty"`
+	// MissingDir: the directory to lock does not exist (every acquisition may then fail, but no two may succeed)
+	MissingDir bool `json:"directory_to_lock_missing,omitempty"`
 }
 
 const lockID = "L"
@@ -269,7 +271,9 @@ func runCase(t ev.T, test string, c Case) (known string) {
 	box := fsbox.New(c.Backend)
 	defer box.Close()
 	dir := box.Path("locks")
-	_ = box.Raw.MkdirAll(dir, 0o755)
+	if !c.MissingDir {
+		_ = box.Raw.MkdirAll(dir, 0o755)
+	}
 	_ = box.Raw.MkdirAll(box.Path("elsewhere"), 0o755)
 	w := &world{c: &c, box: box, lockDir: filepath.Join(dir, filesystem.LockFilePrefix+"-"+lockID), owner: -1, t0: time.Now()}
 	sched := baton.New(box.Backend, w.unparked)
@@ -511,6 +515,7 @@ func genCase(t *rapid.T) Case {
 	for i := range base {
 		base[i] = i
 	}
+	c.MissingDir = rapid.IntRange(0, 9).Draw(t, "missing-dir") == 0
 	m := rapid.IntRange(8, 60).Draw(t, "schedule-len")
 	for i := 0; i < m; i++ {
 		c.Schedule = append(c.Schedule, rapid.Permutation(base).Draw(t, fmt.Sprintf("prio%d", i)))
